@@ -14,6 +14,12 @@
 (*        copy of the database + one DISCOVER per client seen so far +     *)
 (*        fresh clients until refusal + the rows of leases4                *)
 (*  tick                        2.1 s of real time passed                  *)
+(*  fault {on}                  the environment holds / releases a write    *)
+(*        transaction on the lease database: while it is held the plugin's  *)
+(*        own writes fail (a transient storage fault).  C03 is stated for   *)
+(*        request histories; a binding first handed out while the store     *)
+(*        could not be written (nobind) or a lease promised then (noexp)    *)
+(*        is exempt - everything before and AFTER the fault is not          *)
 (*  creq {mac, known, res, idx, held}  linearized request (observation     *)
 (*        point inside the plugin's critical section, concurrent runs)     *)
 (*  cret {mac, res, idx, lease} what a concurrent caller got back          *)
@@ -24,8 +30,8 @@ CONSTANTS Lens
 
 Trace == ndJsonDeserialize("trace.ndjson")
 
-VARIABLES l, N, lease, bound, promise, up
-tvars == <<l, N, lease, bound, promise, up>>
+VARIABLES l, N, lease, bound, promise, up, faulty, nobind, noexp
+tvars == <<l, N, lease, bound, promise, up, faulty, nobind, noexp>>
 
 IsEvent(e) == l <= Len(Trace) /\ Trace[l].ev = e /\ l' = l + 1
 Ext(f, m, v) == [x \in DOMAIN f \cup {m} |-> IF x = m THEN v ELSE f[x]]
@@ -37,6 +43,7 @@ TraceReset ==
   /\ IsEvent("reset")
   /\ N' = Trace[l].N /\ lease' = Trace[l].lease
   /\ bound' = << >> /\ promise' = << >> /\ up' = FALSE
+  /\ faulty' = FALSE /\ nobind' = {} /\ noexp' = {}
 
 TraceSetup ==
   /\ IsEvent("setup")
@@ -44,7 +51,12 @@ TraceSetup ==
      /\ ("C03" \in Lens) => e.res = "ok"          \* restart on its own database succeeds
      /\ ~e.restart => e.res = "ok"                \* first setup on an empty database (any lens)
      /\ up' = (e.res = "ok")
-  /\ UNCHANGED <<N, lease, bound, promise>>
+     \* a binding that was handed out while the store could not be written may or may not have reached the store
+     \* later: a restart keeps some subset K of those (the crash points that follow tell which)
+     /\ \E K \in (IF e.restart THEN SUBSET (nobind \cap DOMAIN bound) ELSE {{}}) :
+          /\ bound' = IF e.restart THEN [m \in (DOMAIN bound \ nobind) \cup K |-> bound[m]] ELSE bound
+          /\ nobind' = IF e.restart THEN {} ELSE nobind
+  /\ UNCHANGED <<N, lease, promise, faulty, noexp>>
 
 \* the guard of C02 for one linearized request of client m answered with res / idx
 ReqOK(m, res, idx) ==
@@ -63,12 +75,23 @@ TraceReq ==
                  /\ e.res = "reply" => e.lease = lease
      /\ bound' = IF e.res = "reply" /\ e.mac \notin DOMAIN bound THEN Ext(bound, e.mac, e.idx) ELSE bound
      /\ promise' = IF e.res = "reply" THEN Ext(promise, e.mac, e.t0 + lease) ELSE promise
-  /\ UNCHANGED <<N, lease, up>>
+     /\ nobind' = IF e.res = "reply" /\ e.mac \notin DOMAIN bound
+                  THEN (IF faulty THEN nobind \cup {e.mac} ELSE nobind \ {e.mac})     \* a fresh binding is durable iff the store was writable
+                  ELSE nobind
+     /\ noexp' = IF faulty /\ e.res = "reply" THEN noexp \cup {e.mac} ELSE noexp
+  /\ UNCHANGED <<N, lease, up, faulty>>
 
-TraceTick == IsEvent("tick") /\ UNCHANGED <<N, lease, bound, promise, up>>
+TraceFault ==
+  /\ IsEvent("fault")
+  /\ faulty' = Trace[l].on
+  /\ UNCHANGED <<N, lease, bound, promise, up, nobind, noexp>>
+
+
+TraceTick == IsEvent("tick") /\ UNCHANGED <<N, lease, bound, promise, up, faulty, nobind, noexp>>
 
 Pairs(seq) == {<<seq[i].m, seq[i].idx>> : i \in 1..Len(seq)}
 BoundPairs == {<<m, bound[m]>> : m \in DOMAIN bound}
+SafePairs == {<<m, bound[m]>> : m \in DOMAIN bound \ nobind}
 
 TraceProbe ==
   /\ IsEvent("probe")
@@ -77,19 +100,23 @@ TraceProbe ==
        /\ e.res = "ok"                                                \* restart succeeds at this crash point
        \* exactly the bindings handed out so far: every bound client gets its address back ...
        /\ \A i \in 1..Len(e.bind) :
-            e.bind[i].m \in DOMAIN bound => (e.bind[i].res = "reply" /\ e.bind[i].idx = bound[e.bind[i].m])
+            e.bind[i].m \in DOMAIN bound \ nobind => (e.bind[i].res = "reply" /\ e.bind[i].idx = bound[e.bind[i].m])
        /\ \A m \in DOMAIN bound : \E i \in 1..Len(e.bind) : e.bind[i].m = m
        \* ... the table holds one row per bound client and nothing else (none lost, changed, duplicated) ...
-       /\ Pairs(e.rows) = BoundPairs
-       /\ Len(e.rows) = Cardinality(DOMAIN bound)
+       /\ SafePairs \subseteq Pairs(e.rows) /\ Pairs(e.rows) \subseteq BoundPairs
+       /\ Len(e.rows) = Cardinality(Pairs(e.rows))
        \* ... the restored allocator has exactly the remaining capacity, on other addresses ...
-       /\ e.freshdone => /\ Len(e.fresh) = N - Cardinality(Ran(bound))
+       /\ (e.freshdone /\ nobind = {}) =>
+                         \* (a client that was seen but holds nothing - dropped when full, or its binding never reached the
+                         \* store - takes one address of the remaining capacity when the probe asks for it again)
+                         /\ Len(e.fresh) = N - Cardinality(Ran(bound))
+                                             - Cardinality({i \in 1..Len(e.bind) : e.bind[i].m \notin DOMAIN bound /\ e.bind[i].res = "reply"})
                          /\ \A i \in 1..Len(e.fresh) : e.fresh[i] \notin Ran(bound)
                          /\ \A i, j \in 1..Len(e.fresh) : i # j => e.fresh[i] # e.fresh[j]
        \* ... and the stored expiry is not earlier than the promise (one second of resolution)
        /\ \A i \in 1..Len(e.rows) :
-            e.rows[i].m \in DOMAIN promise => e.rows[i].expiry >= promise[e.rows[i].m] - 1
-  /\ UNCHANGED <<N, lease, bound, promise, up>>
+            (e.rows[i].m \in DOMAIN promise /\ e.rows[i].m \notin noexp) => e.rows[i].expiry >= promise[e.rows[i].m] - 1
+  /\ UNCHANGED <<N, lease, bound, promise, up, faulty, nobind, noexp>>
 
 TraceCReq ==
   /\ IsEvent("creq") /\ up
@@ -99,17 +126,17 @@ TraceCReq ==
      \* lookup saw the current map
      /\ ("DISC" \in Lens) => (e.held /\ (e.known <=> (e.mac \in DOMAIN bound)))
      /\ bound' = IF e.res = "reply" /\ e.mac \notin DOMAIN bound THEN Ext(bound, e.mac, e.idx) ELSE bound
-  /\ UNCHANGED <<N, lease, promise, up>>
+  /\ UNCHANGED <<N, lease, promise, up, faulty, nobind, noexp>>
 
 TraceCRet ==
   /\ IsEvent("cret")
   /\ LET e == Trace[l] IN
      C02on => /\ e.res \in {"reply", "drop"}
               /\ e.res = "reply" => (e.mac \in DOMAIN bound /\ bound[e.mac] = e.idx /\ e.lease = lease)
-  /\ UNCHANGED <<N, lease, bound, promise, up>>
+  /\ UNCHANGED <<N, lease, bound, promise, up, faulty, nobind, noexp>>
 
-TraceInit == l = 1 /\ N = 0 /\ lease = 0 /\ bound = << >> /\ promise = << >> /\ up = FALSE
-TraceNext == TraceReset \/ TraceSetup \/ TraceReq \/ TraceTick \/ TraceProbe \/ TraceCReq \/ TraceCRet
+TraceInit == l = 1 /\ N = 0 /\ lease = 0 /\ bound = << >> /\ promise = << >> /\ up = FALSE /\ faulty = FALSE /\ nobind = {} /\ noexp = {}
+TraceNext == TraceFault \/ TraceReset \/ TraceSetup \/ TraceReq \/ TraceTick \/ TraceProbe \/ TraceCReq \/ TraceCRet
 TraceSpec == TraceInit /\ [][TraceNext]_tvars
 
 TraceAccepted ==
